@@ -295,6 +295,9 @@ func (rig *mconnRig) runConn(c *core.Case, fs []frame, label string) {
 	exp, mustErr, exact := rig.model(fs)
 	// wait for the expected outcome
 	deadline := time.Now().Add(15 * time.Second)
+	if !exact {
+		deadline = time.Now().Add(30 * time.Millisecond) // unpredictable sequence: only panics, hangs and over-size deliveries are judged
+	}
 	for time.Now().Before(deadline) {
 		mu.Lock()
 		ng, ne := len(got), len(errs)
@@ -302,13 +305,7 @@ func (rig *mconnRig) runConn(c *core.Case, fs []frame, label string) {
 		if ne > 0 || (exact && !mustErr && ng >= len(exp)) {
 			break
 		}
-		if !exact && werr != nil {
-			break
-		}
 		time.Sleep(200 * time.Microsecond)
-		if !exact && ng+ne == 0 && time.Now().After(deadline.Add(-14900*time.Millisecond)) {
-			break // unpredictable sequence: a short grace period is enough
-		}
 	}
 	time.Sleep(300 * time.Microsecond)
 	mu.Lock()
